@@ -110,7 +110,16 @@ def run(tier, seed):
         n = nalloc.get("Q%d" % i, 0)
         if n <= 0: raise SystemExit("INFRA: no allocations counted for scenario %d" % i)
         if per is None:
-            ks = list(range(n))
+            # thorough: every index of short scenarios; otherwise every call site with its first, last and up to 12 further
+            # indices (an exhaustive run over the ~600 000 allocations of all scenarios does not finish in four hours)
+            if n <= 3000:
+                ks = list(range(n))
+            else:
+                ks = set(range(0, min(n, 64)))
+                for f, l, c in sites.get("Q%d" % i, []):
+                    ks.add(f); ks.add(l)
+                    for _ in range(min(12, max(0, c - 2))): ks.add(rnd.randrange(f, l + 1))
+                ks = sorted(k for k in ks if k < n)
         else:
             # quick tier: every allocation call site (innermost return addresses) at least once, rarest sites first -
             # uniform sampling of indices would spend nearly everything on the big-number library
@@ -217,9 +226,9 @@ def run(tier, seed):
     for kind, text, rp in violations[:25]:
         print("VIOLATION property=%s replay=%s" % (prop, rp)); print("  (%s) %s" % (kind, text[:900]))
     cov = {"evaluations": len(eps), "distinct_nontrivial": len(distinct),
-           "rule": "evaluation = one run of a scenario (version x key exchange x verifier role x credential / proof class from the C04 generator, incl. key loading, handshake, data, closure, deletion) with the k-th library allocation failing; k ranges over every allocation of the scenario (thorough) or every distinct allocation call site - rarest first, up to 240 per scenario - plus the first 8 and a random sample (quick); distinct_nontrivial = distinct (version, kx, role, credential class, proof class, verifier completed?, fault reached?)",
+           "rule": "evaluation = one run of a scenario (version x key exchange x verifier role x credential / proof class from the C04 generator, incl. key loading, handshake, data, closure, deletion) with the k-th library allocation failing; k ranges over every allocation of scenarios with up to 3000 allocations and over every call site (first, last and up to 12 further allocations of each) of the longer ones (thorough) or every distinct allocation call site - rarest first, up to 240 per scenario - plus the first 8 and a random sample (quick); distinct_nontrivial = distinct (version, kx, role, credential class, proof class, verifier completed?, fault reached?)",
            "samples": [dict(scenario={k: e["sc"][k] for k in ("ver", "kx", "fam", "role", "cb", "cred", "pop")}, k=e["meta"]["k"], allocations=e["meta"]["nalloc"]) for e in eps[:2] + eps[-2:]],
            "scenarios": len(S), "allocation_sites": {"seen": nsites_total[0], "failed_at_least_once": nsites_used[0]} if tier == "quick" else "all", "allocations_per_scenario": {"min": min(nalloc.values()), "max": max(nalloc.values())}, "outcomes": dict(stats),
-           "traces_validated_against_impl": nvalid, "known_findings_reported": sorted(known_hit), "trace_states_checked": tstates, "exhaustive": tier == "thorough"}
+           "traces_validated_against_impl": nvalid, "known_findings_reported": sorted(known_hit), "trace_states_checked": tstates, "exhaustive": False}
     runner.write_evidence(prop, tier, seed, "fault_enumeration", cov, time.time() - t0, len(violations), ASSUME)
     return 1 if violations else 0
